@@ -158,10 +158,12 @@ def C12(tier, seed):
 
     q = tier == "quick"
     ids3 = [3, 1, 7] if q else [3, 1, 7, 12]
+    m3 = 2 if q else 3
+    ids5 = [3, 1, 7] if q else [8, 3, 1, 7, 12]
     nm = {"time": "t", "pos": ["y", "x"]}
     cols = {"t": "int", "y": "real", "x": "real"}
     G = [
-        ("renamed+custom", dict(ids=ids3, M=2, columns=dict(cols, c="int"), name_map=dict(nm, c="c"))),
+        ("renamed+custom", dict(ids=ids3, M=m3, columns=dict(cols, c="int"), name_map=dict(nm, c="c"))),
         ("legacy_yx_keys+column_named_time", dict(ids=[3, 1, 7], M=2,
                                                    columns={"t": "int", "row": "real", "col": "real", "time": "int"},
                                                    name_map={"time": "t", "y": "row", "x": "col", "custom": "time"})),
@@ -186,8 +188,8 @@ def C12(tier, seed):
     ccols = {"id": "id", "parent_id": "parent", "t": "int", "y": "real", "x": "real"}
     cnm = {"id": "id", "parent_id": "parent_id", "time": "t", "pos": ["y", "x"]}
     Cv = [
-        ("integer_ids+custom", dict(ids=ids3, columns=dict(ccols, c="int"), name_map=dict(cnm, c="c"))),
-        ("string_ids", dict(ids=["b", "a", "c"], columns=ccols, name_map=cnm)),
+        ("integer_ids+custom", dict(ids=ids5, columns=dict(ccols, c="int"), name_map=dict(cnm, c="c"))),
+        ("string_ids", dict(ids=["b", "a", "c"] if q else ["b", "a", "c", "10"], columns=ccols, name_map=cnm)),
         ("id_zero+column_named_time", dict(ids=[0, 5, 2], columns={"id": "id", "parent_id": "parent", "t": "int",
                                                                   "y": "real", "x": "real", "time": "int"},
                                            name_map=dict(cnm, custom="time"))),
